@@ -383,16 +383,12 @@ func (jw *JSONWriter) encodeJsonChildren(sn schema.Node, n datanode.DataNode) {
 
 		case schema.LeafList:
 			vals := cn.YangDataValues()
-			if len(vals) == 0 {
-				jw.WriteString("null")
-			} else {
-				jw.WriteByte('[')
-				for i, v := range vals {
-					if i != 0 {
-						jw.WriteByte(',')
-					}
-					jw.writeValue(csn, v)
+			jw.WriteByte('[')
+			for i, v := range vals {
+				if i != 0 {
+					jw.WriteByte(',')
 				}
+				jw.writeValue(csn, v)
 			}
 			jw.WriteByte(']')
 		}
